@@ -189,6 +189,59 @@ Theorem quiet_live_neighbour_never_dead : forall P i j s t dead ri,
 Proof. exact quiet_live_neighbour_kept. Qed.
 Print Assumptions quiet_live_neighbour_never_dead.
 
+(* ---- the sender side: restarts ---- *)
+(* the unit of the initial sequence number, as measured on a real NewRouter on this run: the clock in milliseconds *)
+Theorem seq_clock_is_milliseconds : seq_clock_div = 1.
+Proof. exact eq_refl. Qed.
+Print Assumptions seq_clock_is_milliseconds.
+
+(* NewRouter takes the clock (divided by the unit); every reported table change adds one *)
+Theorem new_router_sequence : forall div P i, getr (base P) i = None ->
+  sget i (myseq (fst (pstep_gen div P (PBase (RouterUp i))))) = now P / div.
+Proof. exact router_up_seq. Qed.
+Print Assumptions new_router_sequence.
+
+Theorem table_change_bumps_sequence : forall div P e i, actor e = Some i ->
+  sget i (myseq (fst (pstep_gen div P e))) =
+  if snd (pstep_gen div P e) then sget i (myseq P) + 1 else sget i (myseq P).
+Proof. exact change_bumps_seq. Qed.
+Print Assumptions table_change_bumps_sequence.
+
+(* the obligation of a restart: restart_seq_fresh div t0 k t1 := t0/div + k < t1/div (the new incarnation's first
+   sequence number exceeds everything the old one, started at t0 with k changes since, announced).  If it holds the
+   neighbour records the new number (and then processes its Data, current_data_is_a_deliver); if it does not, the Sync
+   Interests of the new incarnation are taken for "nothing changed": tables and recorded number stay, for ever *)
+Theorem restart_noticed_if_fresh : forall P i j s ri,
+  getr (base P) i = Some ri -> In j (nbrs ri) -> i <> j -> pget (i, j) (nseq P) < s ->
+  pget (i, j) (nseq (fst (pstep P (PSync i j s)))) = s.
+Proof. exact fresh_restart_noticed. Qed.
+Print Assumptions restart_noticed_if_fresh.
+
+Theorem restart_unnoticed_if_not_fresh : forall P i j s ri,
+  getr (base P) i = Some ri -> In j (nbrs ri) -> s <= pget (i, j) (nseq P) ->
+  base (fst (pstep P (PSync i j s))) = base P /\ nseq (fst (pstep P (PSync i j s))) = nseq P.
+Proof. exact stale_restart_unnoticed. Qed.
+Print Assumptions restart_unnoticed_if_not_fresh.
+
+(* milliseconds satisfy the obligation whenever fewer table changes happened than milliseconds have passed ... *)
+Theorem restart_seq_fresh_with_milliseconds : forall t0 k t1, k < t1 - t0 -> restart_seq_fresh 1 t0 k t1.
+Proof. exact restart_seq_ms_fresh. Qed.
+Print Assumptions restart_seq_fresh_with_milliseconds.
+
+(* ... seconds do not: 5 changes, restart 3 s later, well inside the 30 s dead interval *)
+Theorem restart_seq_seconds_refuted : exists t0 k t1,
+  k < t1 - t0 /\ t1 - t0 < 30000 /\ ~ restart_seq_fresh 1000 t0 k t1.
+Proof. exact ProtoFacts.restart_seq_seconds_refuted. Qed.
+Print Assumptions restart_seq_seconds_refuted.
+
+(* in the model: line 1 - 2 - 3, router 2 makes six table changes and restarts 3 s later with router 1 as its only
+   neighbour.  Milliseconds: router 1 fetches the new advertisement and drops its route to 3.  Seconds: the new number
+   (103) is below the remembered one (106), router 1 keeps the route to 3 through 2. *)
+Example c18_restart_example :
+  ex_restart 1 = ([(1, (0, 1)); (2, (1, 2))], 100006, 103000) /\
+  ex_restart 1000 = ([(1, (0, 1)); (2, (1, 2)); (3, (2, 2))], 106, 103).
+Proof. vm_compute. split; reflexivity. Qed.
+
 (* non-vacuity: a triangle 1-2-3 with a fourth router behind 3.  Router 4 disappears and 3 notices: the state is
    well formed and settled but not converged (1 and 2 still route to 4), three rounds later the routers are
    counting to infinity, and after INF + maxdist = 17 rounds the tables are the shortest-path tables. *)
